@@ -31,7 +31,7 @@ def rv(x):
 
 
 G0 = rv('9.80665')
-M2FT = rv('3.28084')
+M2FT = 1 / rv('0.3048')          # the international foot, exactly (BADA 3 user manual: 1 ft = 0.3048 m)
 MPS2KT = 1 / rv('0.514444')
 NAMES = ['c_fcr', 'c_f1', 'c_f2', 'c_d0cr', 'c_d2cr', 'S_ref', 'c_tc1', 'c_tc2', 'c_tc3', 'c_tc4', 'c_tc5', 'c_tcr', 'c_tdes_low',
          'c_tdes_high', 'h_p_des']
